@@ -11,7 +11,7 @@ def cmpopTwoWord : List K := [.«IsNot», .«NotIn»]
 def exprOrPattern : List K := [.«Attribute», .«Await», .«BinOp», .«BoolOp», .«Call», .«Compare», .«Constant», .«Dict», .«DictComp», .«FormattedValue», .«GeneratorExp», .«IfExp», .«Interpolation», .«JoinedStr», .«Lambda», .«List», .«ListComp», .«MatchAs», .«MatchClass», .«MatchMapping», .«MatchOr», .«MatchSequence», .«MatchSingleton», .«MatchStar», .«MatchValue», .«Name», .«NamedExpr», .«Set», .«SetComp», .«Slice», .«Starred», .«Subscript», .«TemplateStr», .«Tuple», .«UnaryOp», .«Yield», .«YieldFrom»]
 def atomUnencl : List K := [.«Attribute», .«Call», .«IsNot», .«JoinedStr», .«MatchClass», .«MatchStar», .«NotIn», .«ParamSpec», .«Subscript», .«TemplateStr», .«TypeVar», .«TypeVarTuple», .«alias», .«arg», .«arguments», .«comprehension», .«keyword», .«withitem»]
 def atomCantPar : List K := [.«ParamSpec», .«TypeVar», .«TypeVarTuple», .«alias», .«arg», .«arguments», .«comprehension», .«keyword»]
-def eolAlways : List K := [.«Add», .«And», .«BitAnd», .«BitOr», .«BitXor», .«Del», .«Dict», .«DictComp», .«Div», .«FloorDiv», .«FormattedValue», .«GeneratorExp», .«Interpolation», .«Invert», .«LShift», .«List», .«ListComp», .«Load», .«MatMult», .«MatchMapping», .«MatchSingleton», .«MatchValue», .«Mod», .«Mult», .«Name», .«Not», .«Or», .«ParamSpec», .«Pow», .«RShift», .«Set», .«SetComp», .«Slice», .«Store», .«Sub», .«TypeIgnore», .«TypeVar», .«TypeVarTuple», .«UAdd», .«USub», .«keyword»]
+def eolAlways : List K := [.«Add», .«And», .«BitAnd», .«BitOr», .«BitXor», .«Del», .«Dict», .«DictComp», .«Div», .«FloorDiv», .«FormattedValue», .«GeneratorExp», .«Interpolation», .«Invert», .«LShift», .«List», .«ListComp», .«Load», .«MatMult», .«MatchMapping», .«MatchSingleton», .«Mod», .«Mult», .«Name», .«Not», .«Or», .«ParamSpec», .«Pow», .«RShift», .«Set», .«SetComp», .«Slice», .«Store», .«Sub», .«TypeIgnore», .«TypeVar», .«TypeVarTuple», .«UAdd», .«USub», .«keyword»]
 def eolBlock : List K := [.«AsyncFor», .«AsyncFunctionDef», .«ClassDef», .«ExceptHandler», .«For», .«FunctionDef», .«If», .«Interactive», .«Match», .«Module», .«Try», .«TryStar», .«While», .«match_case»]
 def withKinds : List K := [.«AsyncWith», .«With»]
 def exprContext : List K := [.«Del», .«Load», .«Store»]
